@@ -85,6 +85,22 @@ pub fn gen_key_mode(rng: &mut Rng, fixed_randomness: bool) -> Mode {
 }
 
 pub fn gen_password(rng: &mut Rng) -> Vec<u8> {
+    let mut p = gen_password_body(rng);
+    // a sixth of the passwords end with a line terminator or a blank (a password read from a file or
+    // pasted): those bytes are part of the password. Derived from the password itself, not drawn.
+    let h = crate::rng::fnv64(&p);
+    if h % 6 == 0 && p.len() != 63 && p.len() != 64 {
+        p.extend_from_slice(match (h >> 8) % 4 {
+            0 => b"\n",
+            1 => b"\r\n",
+            2 => b"\r",
+            _ => b" ",
+        });
+    }
+    p
+}
+
+fn gen_password_body(rng: &mut Rng) -> Vec<u8> {
     match rng.below(9) {
         0 => vec![],
         1 => vec![b'a'],
